@@ -75,7 +75,27 @@ class C10(E1Prop):
     def next_op(self, w, rng, step, nsteps):
         tier = getattr(self, 'tier', 'quick')
         maxp = 2 if tier == 'quick' else 5
-        if step == 0 and w.use_queue and rng.random() < 0.25:
+        if step == 0 and w.use_queue and rng.random() < 0.2:
+            # story: the author pushes one more commit while the PR is in
+            # the queue; the queue merges what it has (partial merge); the
+            # PR is then evaluated again by the same and by a fresh instance
+            dests = ops.dest_branches(w.cfg)
+            self.script = [
+                {'op': 'open_pr', 'actor': 'alice',
+                 'src': 'bugfix/TEST-971', 'dst': rng.choice(dests),
+                 'kind': 'new'},
+                {'op': 'eval', 'p': 0},
+                {'op': 'ci_green_all', 'which': ['src', 'w']},
+                {'op': 'eval', 'p': 0},
+                {'op': 'commit', 'p': 0, 'kind': 'new'},
+                {'op': 'ci_green_all', 'which': ['q']},
+                {'op': 'eval_commit', 'target': ['q', 0]},
+                {'op': 'probe', 'pick': rng.randrange(10 ** 9), 'nmax': 0,
+                 'targets': [{'k': 'pr', 'id': 1}]}]
+            for o in self.script:
+                o['dt'] = rng.choice([1, 5, 30])
+            self.nprobes += 1
+        elif step == 0 and w.use_queue and rng.random() < 0.25:
             # story: a multi-target PR sits in the queue and its queue
             # builds end in a non-green state on every version; then the
             # same events keep coming
